@@ -20,7 +20,7 @@ from vlib.tr_filter import tr_filter
 from vlib.tr_wrapper import tr_wrapper
 from vlib.tr_output import tr_output
 from vlib.syslevel import build_prod, per_call, call_line, run_many
-from vlib.filt import AREA, UIDS, build_impl, alphabet, chains_upto, random_chain, measure_singles, parse_elems, table_of, run_script_as, stage_tools, shrink_list, FAST_ASAN
+from vlib.filt import AREA, UIDS, build_impl, alphabet, chains_upto, random_chain, boundary_chains, measure_singles, parse_elems, table_of, run_script_as, stage_tools, shrink_list, FAST_ASAN
 
 SINKS = ["sink\tfile\tout\t@D@/out.log", "sink\tpipe\tso\t1", "sink\tpipe\tse\t2", "sink\tdgram\tsock\t@D@/s.sock",
          "sink\tdevlog\tdevlog\t@D@/devlog.sock", "sink\ttty\ttty"]
@@ -127,24 +127,49 @@ def minimise(run, exe, case):
     return best[0]
 
 
+def seq_fails(run, exe, seq):
+    r = corr_stream(run, AREA, exe, seq, spec_line=spec_line, stream="shrink", impl_env=FAST_ASAN)
+    return bool(r["spec_bad"] or r["faults"])
+
+
+def reproduce(run, exe, cases, i):
+    """the case alone (minimised) when it fails alone; otherwise the shortest run of preceding cases that makes it fail again
+    in one process (a decision that depends on earlier calls)"""
+    if seq_fails(run, exe, [cases[i]]):
+        return [minimise(run, exe, cases[i])]
+    for k in (1, 2, 4, 8, 16, 64, 256, i):
+        seq = cases[max(0, i - k): i + 1]
+        if seq_fails(run, exe, seq):
+            return seq
+        if k >= i:
+            break
+    return [cases[i]]
+
+
 def classify(run, res, cases, stream, in_domain=True, exe=None):
     nv = 0
     shrunk = set()
     for k, (i, c, impl, sp) in enumerate(res["spec_bad"]):
+        seq = [c]
         if k == 0 and exe is not None:
-            c = minimise(run, exe, c)
+            seq = reproduce(run, exe, cases, i)
+            c = seq[-1]
         run.violation("spec:conjunction", "spec_violation",
-                      "decision %s is not the conjunction of the known elements' own verdicts: %s (measured verdicts: %s)" % (impl.split("\t")[1], describe(c), c.split("\t")[5]),
-                      {"stream": stream, "failing_input": c, "impl_output": impl, "model_output": res["model"][i], "cases": [c]})
+                      "decision %s is not the conjunction of the known elements' own verdicts: %s (measured verdicts: %s)%s"
+                      % (impl.split("\t")[1], describe(c), c.split("\t")[5], " (as the last of %d calls in one process)" % len(seq) if len(seq) > 1 else ""),
+                      {"stream": stream, "failing_input": c, "impl_output": impl, "model_output": res["model"][i], "cases": seq})
         nv += 1
     for (i, c, impl) in res["faults"]:
+        seq = [c]
         if not in_domain and res["model"][i].startswith("fault:"):
             continue          # outside the property's domain, and the model predicts the undefined behaviour
         if in_domain and "fault" not in shrunk and exe is not None:
             shrunk.add("fault")
-            c = minimise(run, exe, c)
-        run.violation("fault:%s" % impl.split("\t")[0], "sanitizer", "implementation faulted (%s) on %s" % (impl, describe(c)),
-                      {"stream": stream, "failing_input": c, "impl_output": impl, "model_output": res["model"][i], "cases": [c]})
+            seq = reproduce(run, exe, cases, i)
+            c = seq[-1]
+        run.violation("fault:%s" % impl.split("\t")[0], "sanitizer", "implementation faulted (%s) on %s" % (impl, describe(c))
+                      + (" (as the last of %d calls in one process)" % len(seq) if len(seq) > 1 else ""),
+                      {"stream": stream, "failing_input": c, "impl_output": impl, "model_output": res["model"][i], "cases": seq})
         nv += 1
     mism = [m for m in res["mismatch"] if not (m[2].startswith("fault:") and (m[3].startswith("san:") or m[3].startswith("crash:")))]
     return nv, mism
@@ -188,7 +213,13 @@ def e2e(run, exe, fc, alpha, tier, rng):
         chains = list(pairs_ch)
         chains += [random_chain(rng, alpha[:10] + alpha[11:], 900) for _ in range(25 if tier == "quick" else 150)]
         chains = [c for c in chains if b'"' not in c and b" " not in c and b"\n" not in c and b"#" not in c]
-        procs.append({"uid": u, "tty": t, "out": oname, "oarg": oarg, "sink": sink, "chains": chains})
+        procs.append({"uid": u, "tty": t, "out": oname, "oarg": oarg, "sink": sink, "chains": chains, "extra": b"", "fmt": b"%{cmdline}"})
+    long_arg = b"y" * 400       # with error logging on, the message overflow is reported through the error handler
+    # error logging on, a failing data source and a message that overflows its limit (error handler): a dropped call must stay silent all the same
+    for (u, t, o) in ([(1000, 0, 0)] if tier == "quick" else [(1000, 0, 0), (0, 1, 4), (65534, 0, 3)]):
+        oname, oarg, sink = OUTS[o]
+        procs.append({"uid": u, "tty": t, "out": oname, "oarg": oarg, "sink": sink, "chains": list(pairs_ch),
+                      "extra": b"error_logging = yes\nlog_message_max_length = 255\n", "fmt": b"%{cmdline} %{nosuchdatasource:x}"})
     # predictions: the chain combinator (model) over the verdicts measured at function level in the same state
     pairs = [((p["uid"], p["uid"], p["tty"]), c) for p in procs for c in p["chains"]]
     lines, singles, el = chain_cases(run, exe, pairs, "e2e")
@@ -203,7 +234,7 @@ def e2e(run, exe, fc, alpha, tier, rng):
             k += 1
 
     def ini_of(p, chain):
-        return b"[snoopy]\nmessage_format = \"%{cmdline}\"\noutput = " + p["oarg"] + b"\nfilter_chain = \"" + chain + b"\"\n"
+        return b"[snoopy]\n" + p["extra"] + b"message_format = \"" + p["fmt"] + b"\"\noutput = " + p["oarg"] + b"\nfilter_chain = \"" + chain + b"\"\n"
 
     def job(i):
         p = procs[i]
@@ -211,7 +242,7 @@ def e2e(run, exe, fc, alpha, tier, rng):
         for k, c in enumerate(p["chains"]):
             script.append("ini\t" + hexs(ini_of(p, c)))
             last = (k == len(p["chains"]) - 1)
-            script.append(call_line("execve" if k % 2 else "execv", b"/bin/prog", [b"mark-%d-x" % k], [] if k % 2 else None, 1 if last else 0, 0 if last else -1, 0 if last else 2))
+            script.append(call_line("execve" if k % 2 else "execv", b"/bin/prog", [b"mark-%d-x" % k] + ([long_arg] if p["extra"] else []), [] if k % 2 else None, 1 if last else 0, 0 if last else -1, 0 if last else 2))
         return (i, script, run_script_as(run, lib, script, "c07-%d" % i, p["uid"], p["tty"], timeout=300))
     outs = run_many(job, range(len(procs)), workers=4)
     ncmp, ndrop, npass = 0, 0, 0
@@ -235,7 +266,8 @@ def e2e(run, exe, fc, alpha, tier, rng):
                 if hx not in ("-", "~"):
                     at[nm] = at.get(nm, "") + hx
             late = [(ph, nm) for ph in (("after", "after-flush") if not last else ()) for (nm, hx) in call["sinks"].get(ph, []) if hx not in ("-", "~")]
-            logged = mark in at.get(p["sink"], "")
+            # (with the overflowing message of the error-logging processes the cmdline itself is refused: any record counts there)
+            logged = mark in at.get(p["sink"], "") or bool(p["extra"] and at.get(p["sink"]))
             stray = [nm for nm in at if nm != p["sink"]]
             nreal = len(call["real"])
             ret = call["ret"]
@@ -257,7 +289,8 @@ def e2e(run, exe, fc, alpha, tier, rng):
                 run.violation(sig, "spec_violation", "%s: chain %r, output %s, uid %d, %s on stdin" % (why, c[:200], p["out"], p["uid"], "a terminal" if p["tty"] else "/dev/null"),
                               {"failing_input": {"filter_chain": c.decode("latin1"), "uid": p["uid"], "tty": p["tty"], "output": p["out"], "predicted": "pass" if want_pass else "drop"},
                                "script": sub, "uid": p["uid"], "tty": p["tty"], "mark": (b"mark-%d-x" % k).decode(), "sink": p["sink"], "predicted_pass": want_pass})
-    return {"calls": ncmp, "predicted_drop": ndrop, "predicted_pass": npass, "processes": len(procs), "states": states}
+    return {"calls": ncmp, "predicted_drop": ndrop, "predicted_pass": npass, "processes": len(procs), "states": states,
+            "error_logging_processes": sum(1 for p in procs if p["extra"])}
 
 
 def check(run):
@@ -277,7 +310,9 @@ def check(run):
     small = chains_upto(alpha, 2 if run.tier == "quick" else 3)
     gen = [(st, c) for st in states for c in small]
     nrand = 3000 if run.tier == "quick" else 25000
-    gen += [(rng.choice(states), random_chain(rng, alpha, limit)) for _ in range(nrand)]
+    gen += [(rng.choice(states), random_chain(rng, alpha, limit, wild=True)) for _ in range(nrand)]
+    bnd = boundary_chains(limit, 1000, 1001)
+    gen += [(st, c) for st in ((1000, 7, 0), (0, 1000, 1)) for c in bnd]
     # a smoke stage first: when the implementation faults on a large share of it the full stream is pointless (and slow)
     pairs = corp + gen[:: max(1, len(gen) // 300)]
     lines, singles, el = chain_cases(run, exe, pairs, "smoke")
